@@ -24,7 +24,7 @@ SCRIPTS = {
     'long-delay-then-loop': 'time 3 repeat begin on "A" end',
 }
 WEB_PATH = 'kid\'s "room" <&>'
-NEXT_JOB = 'on "C" off "C"'
+NEXT_JOB = 'on "C" off "C" on "C"'
 NEXT_FOREVER = 'repeat begin on "C" off "C" end'
 LATER_JOB = 'time 1 on "C" off "C"'
 
@@ -103,8 +103,9 @@ def scenario(ctx, script_key, stop_api, with_next, max_preempt, later=False):
             if nxt is not None:
                 jc.add_job(nxt, 'next')
             # the stop may land anywhere from here on: the scheduler decides how far the job got
-            for _ in range(ctx.choose(3, 'let-it-run')):
-                simsched.ShimTime.sleep(TICK)
+            if stop_api != 'stop_all_handover':            # (that one waits for the job in front by itself)
+                for _ in range(ctx.choose(3, 'let-it-run')):
+                    simsched.ShimTime.sleep(TICK)
             marks['before'] = len(net.trace)
             simsched.Sched.cur_sched = None          # harness bookkeeping: not a scheduling point
             cur = jc.__dict__.get('$_active_agent')
@@ -146,7 +147,9 @@ def scenario(ctx, script_key, stop_api, with_next, max_preempt, later=False):
                     if len([e for e in net.trace if e[0] == 'power' and e[1] in ('A', 'B')]) >= n_main:
                         break
                     simsched.ShimTime.sleep(0.05)
-                for _ in range(ctx.choose(3, 'handover-wait')):
+                # 0: the last request of the job in front is still under way; 1: the stop arrives at the instant that job ends
+                # (the scheduler decides which thread moves first) or just after the hand-over
+                for _ in range(ctx.choose(2, 'handover-wait')):
                     simsched.ShimTime.sleep(0.05)
                 marks['before'] = len(net.trace)
                 simsched.Sched.cur_sched = None
@@ -192,14 +195,15 @@ def scenario(ctx, script_key, stop_api, with_next, max_preempt, later=False):
         c_cmds = [e for e in net.trace if e[0] == 'power' and e[1] == 'C']
         if not s.out_of_steps and not hung:
             if with_next and not aim_next and stop_api in ('stop_job', 'stop_current') and marks.get('current_at_stop') != 'next':
-                if len(c_cmds) < 2:
-                    problems.append('the next queued job did not run to completion after the stop (%d of 2 commands)' % len(c_cmds))
+                if len(c_cmds) < 3:
+                    problems.append('the next queued job did not run to completion after the stop (%d of 3 commands)' % len(c_cmds))
             if with_next and stop_api in ('stop_all', 'stop_all_handover'):
                 started_after = [e for e in net.trace[marks['returned']:] if e[0] == 'power' and e[1] == 'C']
                 queued_ran_before = [e for e in net.trace[:marks['before']] if e[1] == 'C']
-                if started_after and marks.get('current_at_stop') != 'next' and (len(started_after) > 1 or
-                                                                                  not any(e[1] == 'C' for e in net.trace[:marks['returned']])):
-                    problems.append('stop-all: a queued job started after stop-all returned')
+                # A queued job that the hand-over had already started when stop-all got to it is stopped like any running
+                # job: at most its instruction in progress.  One that starts after stop-all returned runs unhindered (3 commands).
+                if len(started_after) > 1 and marks.get('current_at_stop') != 'next':
+                    problems.append('stop-all: a queued job started, or went on sending commands, after stop-all returned (%d commands)' % len(started_after))
                 if jc.get_queued():
                     problems.append('stop-all left jobs in the queue')
             if later:
@@ -277,8 +281,8 @@ def run(tier, seed):
                 items.append({'script': script, 'api': api, 'next': nxt, 'later': False, 'preempt': 2 if q else 3,
                               'max_paths': 1500 if q else 150000, 'budget_s': 14 if q else 600})
         if script in ('straight', 'timed'):
-            items.insert(0, {'script': script, 'api': 'stop_all_handover', 'next': True, 'later': False, 'preempt': 2 if q else 3,
-                             'max_paths': 3000 if q else 150000, 'budget_s': 40 if q else 600})
+            items.insert(0, {'script': script, 'api': 'stop_all_handover', 'next': True, 'later': False, 'preempt': 1 if q else 3,
+                             'max_paths': 4000 if q else 150000, 'budget_s': 50 if q else 600})
             items.insert(0, {'script': script, 'api': 'stop_next', 'next': True, 'later': False, 'preempt': 2 if q else 3,
                              'max_paths': 3000 if q else 150000, 'budget_s': 45 if q else 600})
         if script in ('forever', 'timed'):
